@@ -248,6 +248,7 @@ def run_shard(desc, seed, tier, col):
         col.case({'T': ev['T'], 'e': ev['encs'], 't': ev['tails']}, nontriv, feats,
                  sample={'type': ir.show_type(ev['T']), 'encodings': [e.hex()[:80] for e in ev['encs']],
                          'tails': [t.hex()[:40] for t in ev['tails']], 'forms': ev['forms']})
+        col.begin(case)
         for f in run_case(case, col):
             col.fail(f['sub'], f['kind'], f['msg'], case, sig=f['sig'], obs=f.get('obs'))
 
